@@ -24,3 +24,6 @@ def check(repo, rep, tier):
     rep.run(rx.rule_no_import_time_container_mutated, cm, rep, 'C18.N6')
     # the environment (locale) is an ambient input too: it must not choose how the bytes of a source are read
     rep.run(re_.rule_codecs_strict, cm, rep, 'C18.N7')
+    rep.run(re_.rule_asserts_have_no_effects, cm, rep, 'C18.N8')
+    # the returned text does not depend on the debug options (which would also bring object addresses into it)
+    rep.run(re_.rule_flags_only_comments, cm, rep, 'C18.N9')
